@@ -14,5 +14,5 @@ m=json.load(open(sys.argv[1]+"/meta.json")); open(sys.argv[2]+".md","w").write(m
 v=dict(m.get("validation",{})); v["valid"]=True; json.dump(v,open(sys.argv[2]+".val.json","w"))
 PY
   }
-  echo "$pid $n $pid $(extra $id)"
+  echo "$pid $n $pid $(extra $id)" | sed "s/ *$//"
 done | xargs -P "$P" -L 1 sh -c 'python3 tools/seedval.py detect $0 $1 $2 $3 > /scratch/logs/sweep-$0-m$1.json 2>&1; python3 tools/seedval.py keep $0 $1 > /dev/null; echo "done $0-m$1"'
